@@ -27,6 +27,9 @@ Extremes == {Canon(FALSE, <<1>>, -1074), Canon(FALSE, BnSub(BnShl(<<1>>, 53), <<
              Canon(TRUE, BnSub(BnShl(<<1>>, 53), <<1>>), 971), Canon(FALSE, <<1>>, -1022), Canon(FALSE, <<1>>, 1023)}
 
 Strs == {TestStrings[i] : i \in 1..Len(TestStrings)}
+(* long hexadecimal strings (9.3.1: the MV of a HexIntegerLiteral of any length, rounded once) *)
+LongStrs == {StrV(TestStringsLong[i]) : i \in 1..Len(TestStringsLong)}
+LongStrsBin == {v \in LongStrs : Len(v.s) < 100}      \* the 259-unit string: conversions and unary operators only
 
 RetP(v) == [k |-> "ret", v |-> v]
 Objs == {[t |-> "cobj", id |-> 1, vo |-> RetP(IntV(7)), ts |-> RetP(StrV(<<55>>))],
@@ -36,7 +39,11 @@ Objs == {[t |-> "cobj", id |-> 1, vo |-> RetP(IntV(7)), ts |-> RetP(StrV(<<55>>)
          [t |-> "cobj", id |-> 5, vo |-> [k |-> "throw"], ts |-> RetP(StrV(<<120>>))],
          [t |-> "cobj", id |-> 6, vo |-> RetP(StrV(<<49, 48>>)), ts |-> [k |-> "throw"]],
          [t |-> "cobj", id |-> 7, vo |-> [k |-> "noncallable"], ts |-> RetP(BoolV(TRUE))],
-         [t |-> "cobj", id |-> 8, vo |-> RetP(Null), ts |-> RetP(Undef)]}
+         [t |-> "cobj", id |-> 8, vo |-> RetP(Null), ts |-> RetP(Undef)],
+         \* Date objects (id >= 50): no hint means hint String
+         [t |-> "cobj", id |-> 51, vo |-> RetP(IntV(3)), ts |-> RetP(StrV(<<50, 48>>))],
+         [t |-> "cobj", id |-> 52, vo |-> RetP(IntV(4)), ts |-> [k |-> "retobj"]],
+         [t |-> "cobj", id |-> 53, vo |-> RetP(StrV(<<49, 48>>)), ts |-> [k |-> "throw"]]}
 Fns == {[t |-> "fn", name |-> "Object"], [t |-> "fn", name |-> "Function"]}
 
 Vals == {Undef, Null, BoolV(TRUE), BoolV(FALSE)} \cup {NumV(n) : n \in Nums} \cup {StrV(s) : s \in Strs} \cup Objs
@@ -53,6 +60,12 @@ SmallCases ==
     \cup {[fam |-> "conv", f |-> f, a |-> a] : f \in Convs, a \in Vals}
     \cup {[fam |-> "logic", op |-> op, a |-> a, b |-> b] : op \in {"&&", "||"}, a \in Vals, b \in {IntV(1), Undef}}
     \cup {[fam |-> "cond", a |-> a] : a \in Vals}
+    \cup {[fam |-> "un", op |-> op, a |-> a] : op \in UnOps, a \in LongStrs}
+    \cup {[fam |-> "conv", f |-> f, a |-> a] : f \in Convs, a \in LongStrs}
+    \cup {[fam |-> "bin", op |-> op, a |-> a, b |-> b] : op \in BinOps \ {"in", "instanceof"}, a \in LongStrsBin,
+             b \in LongStrsBin \cup {IntV(1), StrV(<<49, 48>>), BoolV(TRUE), NumV(Pow2(64)), Undef}}
+    \cup {[fam |-> "bin", op |-> op, a |-> b, b |-> a] : op \in BinOps \ {"in", "instanceof"}, a \in LongStrsBin,
+             b \in {IntV(1), StrV(<<49, 48>>), BoolV(TRUE), NumV(Pow2(64)), Undef}}
     \cup {[fam |-> "compound", op |-> op, a |-> a, b |-> b, c |-> c] :
              op \in {"+", "-", "*", "<<", "&"}, a \in {IntV(1), StrV(<<97>>)}, b \in {IntV(5)}, c \in {IntV(2), StrV(<<98>>)}}
     \cup {[fam |-> "bin", op |-> op, a |-> a, b |-> b] : op \in {"in", "instanceof", "===", "!=="}, a \in Vals \cup Fns, b \in Fns}
